@@ -25,7 +25,8 @@ use std::os::unix::net::UnixStream;
 use std::sync::atomic::{AtomicU64, Ordering};
 use vm_memory::{Bytes, ReadVolatile, VolatileMemoryError, VolatileSlice, WriteVolatile};
 
-pub const SUITES: &[Suite] = &[Suite { name: "C13", gen, exec }];
+// C14adapt: the same cases and observations, judged by C14's conservation checker (coq/Suite/C14.v)
+pub const SUITES: &[Suite] = &[Suite { name: "C13", gen, exec }, Suite { name: "C14adapt", gen, exec }];
 
 const CANARY: u8 = 197;
 const MARGIN: usize = 8;
